@@ -255,7 +255,7 @@ Definition base_pub (h : hcfg) (pb : pubbeh) : pfun :=
   | PReal id _ => fun t outs => ([EPublish id t outs],
                                  match pb with PubAccept => Some true | PubError => Some false | PubPanic => None end)
   | PDisabled => fun _ _ => ([], Some false)          (* ErrOutputInNoPublisherHandler *)
-  | PNil => fun _ _ => ([], None)                     (* a decorator calls Publish on a nil interface *)
+  | PNil => fun _ _ => ([], Some false)               (* AddHandler stored disabledPublisher{} for the nil publisher (repaired) *)
   end.
 Definition pdec_sem (d : N) (p : pfun) : pfun :=
   fun t outs => let '(tr, r) := p t outs in (EPubDec d t (map (fun o => fst (fst o)) outs) :: tr, r).
@@ -277,11 +277,21 @@ Definition publish_outs (h : hcfg) (s : started) (d : delivery) (cin : ctxv) (ou
   match outs with
   | [] => ([], Some true)
   | _ =>
-      match h_pub h, s_pubdecs s with
-      | PNil, [] => ([], Some false)                   (* h.publisher == nil *)
-      | _, decs => decorate_pub decs (base_pub h (d_pb d)) (h_pubtopic h)
-                                (map (fun m => (m, out_ctx h cin m, own_ctx d m)) outs)
-      end
+      decorate_pub (s_pubdecs s) (base_pub h (d_pb d)) (h_pubtopic h)
+                   (map (fun m => (m, out_ctx h cin m, own_ctx d m)) outs)
+  end.
+
+(** handler.run when its loop ends: if h.publisher != nil { h.publisher.Close() }.
+    [pinned = true] (before the fix "a handler added with a nil publisher gets the no-publisher stand-in"):
+    with a publisher decorator registered h.publisher was the decorator around nil; a decorator that embeds
+    its publisher (the library's MessageTransformPublisherDecorator) forwards Close to nil: the handler
+    goroutine panics and nobody recovers.  (For one message the two variants look alike: the decorators see
+    the batch, then Publish on nil panicked and was recovered => Nack / the stand-in returns
+    ErrOutputInNoPublisherHandler => Nack.) *)
+Definition publisher_close_panics (pinned : bool) (h : hcfg) (s : started) : bool :=
+  match h_pub h, s_pubdecs s with
+  | PNil, _ :: _ => pinned
+  | _, _ => false
   end.
 
 (** the whole life of one copy in handler h *)
